@@ -14,6 +14,8 @@ import (
 	"strings"
 	"time"
 
+	"github.com/cube2222/octosql/execution"
+
 	"github.com/cube2222/octosql/datasources/csv"
 	"github.com/cube2222/octosql/datasources/json"
 	"github.com/cube2222/octosql/datasources/lines"
@@ -124,6 +126,9 @@ type execOut struct {
 	msg      string
 	stack    string
 	timedOut bool
+	// re-running the same node (see execute)
+	rerun     string // history of runs
+	rerunDiff string // a full run that differs from the first full run
 }
 
 func tryCall(fn func()) (panicked bool, msg, stack string) {
@@ -140,7 +145,7 @@ func tryCall(fn func()) (panicked bool, msg, stack string) {
 
 // execute runs Creator → Materialize(subset of fields) → Run. pick chooses the fields to
 // materialise (nil: all); the optimizer only ever removes fields, keeping their order.
-func execute(kind, path string, options map[string]string, pick func(n int) []int) execOut {
+func execute(kind, path string, options map[string]string, pick func(n int) []int, rerun *rand.Rand) execOut {
 	var ex execOut
 	ctx := nodeh.Ctx()
 	var impl physical.DatasourceImplementation
@@ -172,19 +177,146 @@ func execute(kind, path string, options map[string]string, pick func(n int) []in
 		ex.stage, ex.err = "materialize", err
 		return ex
 	}
-	col := &nodeh.Collector{}
-	// hostile consumer: appends to / overwrites every record it was handed (after the collector copied it)
-	res := nodeh.RunNodeCtx(ctx, fileh.Hostile(node), col, nil, 120*time.Second)
-	ex.outs = col.Snapshot()
-	switch {
-	case res.TimedOut:
-		ex.stage, ex.timedOut = "run", true
-	case res.Panicked:
-		ex.stage, ex.panicked, ex.msg, ex.stack = "run", true, res.PanicMsg, res.Stack
-	case res.Err != nil:
-		ex.stage, ex.err = "run", res.Err
+	runFull := func(n execution.Node) ([]nodeh.Out, nodeh.RunResult) {
+		col := &nodeh.Collector{}
+		// hostile consumer: appends to / overwrites every record it was handed (after the collector copied it)
+		res := nodeh.RunNodeCtx(ctx, fileh.Hostile(n), col, nil, 120*time.Second)
+		return col.Snapshot(), res
+	}
+	setRes := func(res nodeh.RunResult) {
+		switch {
+		case res.TimedOut:
+			ex.stage, ex.timedOut = "run", true
+		case res.Panicked:
+			ex.stage, ex.panicked, ex.msg, ex.stack = "run", true, res.PanicMsg, res.Stack
+		case res.Err != nil:
+			ex.stage, ex.err = "run", res.Err
+		}
+	}
+	var res nodeh.RunResult
+	ex.outs, res = runFull(node)
+	setRes(res)
+	if ex.stage != "" || rerun == nil {
+		return ex
+	}
+	// Re-running: the same execution node is run again (lookup joins and subquery expressions do
+	// that once per input record), also after runs that were cut short because the consumer
+	// returned an error from produce (which is how LIMIT stops its source). Two nodes from the same
+	// implementation are interleaved. Every full run must return what the first full run returned
+	// (which the caller compares with the ground truth); the LAST full run is what is handed back.
+	first := keysOf(ex.outs)
+	nRec := len(first)
+	ks := []int{0, 1, 64, nRec - 1, nRec / 2}
+	k1, k2 := ks[rerun.Intn(len(ks))], ks[rerun.Intn(len(ks))]
+	node2, err := impl.Materialize(ctx, nodeh.Env(nil), sub, nil)
+	if err != nil {
+		ex.stage, ex.err = "materialize", err
+		return ex
+	}
+	type step struct {
+		node execution.Node
+		name string
+		stop int // -1: full run
+	}
+	steps := []step{{node2, "B", k2}, {node, "A", k1}, {node2, "B", -1}, {node, "A", -1}, {node2, "B", k1}, {node2, "B", -1}, {node, "A", -1}}
+	history := "A:full"
+	for _, st := range steps {
+		if st.stop >= 0 {
+			k := st.stop
+			if k < 0 || k > nRec {
+				k = 0
+			}
+			history += fmt.Sprintf(" %s:stop-after-%d", st.name, k)
+			col := &nodeh.Collector{}
+			r := nodeh.RunNodeCtx(ctx, &stopNode{src: st.node, k: k}, col, nil, 120*time.Second)
+			if r.TimedOut || r.Panicked {
+				setRes(r)
+				ex.rerun = history
+				return ex
+			}
+			if got := keysOf(col.Snapshot()); len(got) != minInt(k, nRec) || !equalKeys(got, first[:len(got)]) {
+				ex.rerunDiff = fmt.Sprintf("a run stopped after %d records delivered %d records that are not the first %d of a full run (history: %s)", k, len(got), minInt(k, nRec), history)
+				ex.rerun = history
+				return ex
+			}
+			continue
+		}
+		history += " " + st.name + ":full"
+		outs, r := runFull(st.node)
+		ex.rerun = history
+		if r.TimedOut || r.Panicked || r.Err != nil {
+			setRes(r)
+			if r.Err != nil {
+				ex.rerunDiff = "a later full run of the node failed although the first succeeded: " + r.Err.Error() + " (history: " + history + ")"
+			}
+			return ex
+		}
+		ex.outs = outs
+		if got := keysOf(outs); !equalKeys(got, first) {
+			ex.rerunDiff = fmt.Sprintf("full run #%s returned %d records, the first full run returned %d (or other values); history: %s", st.name, len(got), nRec, history)
+			return ex
+		}
 	}
 	return ex
+}
+
+// stopNode's consumer returns an error once it has been handed k records (the k+1-th call fails).
+type stopNode struct {
+	src execution.Node
+	k   int
+}
+
+var errStopConsumer = fmt.Errorf("consumer stops here")
+
+func (s *stopNode) Run(ctx execution.ExecutionContext, produce execution.ProduceFn, metaSend execution.MetaSendFn) error {
+	seen := 0
+	_ = s.src.Run(ctx, func(pctx execution.ProduceContext, record execution.Record) error {
+		if seen >= s.k {
+			return errStopConsumer
+		}
+		seen++
+		return produce(pctx, record)
+	}, metaSend)
+	return nil
+}
+
+func minInt(a, b int) int {
+	if a < b {
+		return a
+	}
+	return b
+}
+
+// rerunRng: nil (no re-running) in child processes, which exist for worker schedules, and for very
+// large files; otherwise a stream derived from the case's generator stream.
+func rerunRng(rng *rand.Rand, rows int) *rand.Rand {
+	seed := rng.Int63()
+	if os.Getenv(childEnv) != "" || rows > 6000 {
+		return nil
+	}
+	return rand.New(rand.NewSource(seed))
+}
+
+func keysOf(outs []nodeh.Out) []string {
+	var ks []string
+	for _, o := range outs {
+		if !o.IsWatermark {
+			ks = append(ks, nodeh.RowKey(o.Record.Values))
+		}
+	}
+	return ks
+}
+
+func equalKeys(a, b []string) bool {
+	if len(a) != len(b) {
+		return false
+	}
+	for i := range a {
+		if a[i] != b[i] {
+			return false
+		}
+	}
+	return true
 }
 
 func subsetPicker(rng *rand.Rand) func(n int) []int {
@@ -213,7 +345,14 @@ func subsetPicker(rng *rand.Rand) func(n int) []int {
 
 // failed reports creator/materialize/run failures of a VALID file as violations; ok=false then.
 func failed(r *Result, kind string, ex execOut, replay map[string]interface{}) bool {
+	if ex.rerun != "" {
+		replay["runs_of_the_node"] = ex.rerun
+		r.count("inproc/"+kind+"/cases_with_reruns", 1)
+	}
 	switch {
+	case ex.rerunDiff != "" && !ex.panicked && !ex.timedOut:
+		r.viol(kind+":rerun-differs", "running the same materialized node again does not return the same rows: "+ex.rerunDiff, replay)
+		return true
 	case ex.timedOut:
 		r.Inconclusive = append(r.Inconclusive, "watchdog")
 		return true
@@ -324,7 +463,7 @@ func runJSON(r *Result, cs Case, rng *rand.Rand, dir string) {
 		return
 	}
 	defer os.Remove(path)
-	ex := execute("json", path, map[string]string{}, subsetPicker(rng))
+	ex := execute("json", path, map[string]string{}, subsetPicker(rng), rerunRng(rng, len(f.Rows)))
 	replay := map[string]interface{}{"id": cs.ID, "kind": "json", "rows": len(f.Rows), "file": inlineContent(f.Content),
 		"schema": schemaString(ex.schema.Fields), "used": schemaString(ex.used), "rerun": "./check C23 <tier> --only " + cs.ID}
 	r.count("inproc/json/files", 1)
@@ -513,7 +652,7 @@ func runCSV(r *Result, cs Case, rng *rand.Rand, dir string) {
 	if !header {
 		opts["header"] = "false"
 	}
-	ex := execute(cs.Kind, path, opts, subsetPicker(rng))
+	ex := execute(cs.Kind, path, opts, subsetPicker(rng), rerunRng(rng, len(f.Rows)))
 	replay := map[string]interface{}{"id": cs.ID, "kind": cs.Kind, "rows": len(f.Rows), "header": header, "file": inlineContent(f.Content),
 		"schema": schemaString(ex.schema.Fields), "used": schemaString(ex.used), "rerun": "./check C23 <tier> --only " + cs.ID}
 	r.count("inproc/"+cs.Kind+"/files", 1)
@@ -680,7 +819,7 @@ func runLines(r *Result, cs Case, rng *rand.Rand, dir string) {
 			return []int{1}
 		}
 	}
-	ex := execute("lines", path, opts, pick)
+	ex := execute("lines", path, opts, pick, rerunRng(rng, len(f.Rows)))
 	replay := map[string]interface{}{"id": cs.ID, "kind": "lines", "sep": sep, "rows": len(f.Rows), "file": inlineContent(f.Content),
 		"used": schemaString(ex.used), "rerun": "./check C23 <tier> --only " + cs.ID}
 	r.count("inproc/lines/files", 1)
@@ -844,7 +983,7 @@ func runParquet(r *Result, cs Case, rng *rand.Rand, dir string) {
 		return
 	}
 	defer os.Remove(path)
-	ex := execute("parquet", path, map[string]string{}, subsetPicker(rng))
+	ex := execute("parquet", path, map[string]string{}, subsetPicker(rng), rerunRng(rng, len(f.Rows)))
 	desc := make([]string, len(f.Cols))
 	for i, c := range f.Cols {
 		desc[i] = c.Name + ":" + c.Rep
@@ -871,7 +1010,7 @@ func runParquet(r *Result, cs Case, rng *rand.Rand, dir string) {
 
 func failedParquet(r *Result, ex execOut, projected bool, replay map[string]interface{}) bool {
 	if ex.stage == "" {
-		return false
+		return failed(r, "parquet", ex, replay) // counts the re-runs and reports a full run that differs
 	}
 	if n, _ := replay["rows"].(int); n == 0 && ex.stage == "creator" && ex.panicked && strings.Contains(ex.msg, "index out of range") {
 		// predicate: a parquet file without any row group (zero rows); symptom: the pinned
